@@ -18,6 +18,7 @@ import (
 	"github.com/lindb/lindb/internal/vevid"
 	"github.com/lindb/lindb/internal/vsched"
 	"github.com/lindb/lindb/kv"
+	"github.com/lindb/lindb/kv/version"
 	"github.com/lindb/lindb/pkg/timeutil"
 )
 
@@ -44,6 +45,7 @@ type world struct {
 	fam     kv.Family
 	letters string
 	wOK     bool
+	held    version.Snapshot
 }
 
 var (
@@ -100,6 +102,10 @@ func setup(files int) {
 }
 
 func teardown() {
+	if w.held != nil {
+		w.held.Close()
+		w.held = nil
+	}
 	mgr := kv.GetStoreManager()
 	_ = mgr.CloseStore(w.srcName)
 	_ = mgr.CloseStore(w.tgtName)
@@ -118,15 +124,25 @@ var threadFns = map[string]func(){"T": tT, "W": tW}
 type scenario struct {
 	Files   int      `json:"files"`
 	Threads []string `json:"threads"`
+	// Held: a reader holds a snapshot of the source family, taken before the triggers start, until everything is over
+	// (an older version of the family stays active next to the ones the rollups install)
+	Held bool `json:"held,omitempty"`
 }
 
 func (s scenario) String() string {
-	return fmt.Sprintf("files=%d threads=%s", s.Files, strings.Join(s.Threads, ","))
+	h := ""
+	if s.Held {
+		h = " held-snapshot"
+	}
+	return fmt.Sprintf("files=%d threads=%s%s", s.Files, strings.Join(s.Threads, ","), h)
 }
 
 func body(sc scenario) func() {
 	return func() {
 		setup(sc.Files)
+		if sc.Held {
+			w.held = w.fam.GetSnapshot()
+		}
 		for i, t := range sc.Threads {
 			vsched.Spawn(fmt.Sprintf("%s%d", t, i), threadFns[t])
 		}
@@ -266,10 +282,12 @@ func main() {
 		rep.Write()
 		return
 	}
-	scenarios := []scenario{{1, []string{"T", "T"}}, {2, []string{"T", "T"}}, {1, []string{"T", "T", "W"}}}
+	// (the large scenario last: the time left is split over the scenarios still to run)
+	scenarios := []scenario{{Files: 1, Threads: []string{"T", "T"}}, {Files: 2, Threads: []string{"T", "T"}},
+		{Files: 2, Threads: []string{"T", "T"}, Held: true}, {Files: 1, Threads: []string{"T", "W"}, Held: true}, {Files: 1, Threads: []string{"T", "T", "W"}}}
 	bound := 2
 	if f.Thorough() {
-		scenarios = append(scenarios, scenario{1, []string{"T", "T", "T"}}, scenario{2, []string{"T", "T", "W"}})
+		scenarios = append(scenarios, scenario{Files: 1, Threads: []string{"T", "T", "T"}}, scenario{Files: 2, Threads: []string{"T", "T", "W"}}, scenario{Files: 2, Threads: []string{"T", "T", "W"}, Held: true})
 		bound = 3
 	}
 	rep.Rule = fmt.Sprintf("scenarios: a source family with 1 or 2 flushed files (rollup target 5m open) x threads {T,T}, {T,T,W} (thorough also {T,T,T}) - T = trigger of the family's rollup, W = flush commit of one more file; the rollup jobs run as controlled threads; every schedule with <=%d preemptions; then the jobs are awaited, one more trigger runs sequentially; oracle: the target never holds a value twice, at the end it holds every flushed value exactly once, no mark is left, the source is complete", bound)
